@@ -11,7 +11,8 @@ thread 1's heap, deep-copied (`Value::deep_copy`) into thread 2's heap and the c
 (`&3=(A 1 2)` names a node, `&3` refers to it); they are built in thread 1's heap and copied with ONE map
 (`spawnCopy`, as `SpawnTask` does) into thread 2's heap.  ops, separated by `;`, act on the task's copies (`T`)
 or on the spawner's originals (`M`), addressed by a path `<capture>.<slot>.<slot>…`:
-  `T set <path> <slot> <int>` | `T push <path> <int>` | `T show <path>` (same with `M`).
+  `T set <path> <slot> <int>` | `T push <path> <int>` | `T pushv <path> <value>` (a fresh value built in the
+  acting side's heap) | `T show <path>` | `T len <path>` (same with `M`).
 Answer: the shown renderings joined by `;`, then ` owned` / ` shared`.
 -/
 namespace Abra.Drv.HeapDrv
@@ -259,6 +260,29 @@ def aliasOp (orig copy : List Val) (H : Heaps) (shown : List String) (ws : List 
       | some (.array a) => match lookup H a with
         | some (.array es) => some (putObj H a (.array (es ++ [.int k])), shown)
         | _ => none
+      | _ => none
+    | _, _ => none
+  | [side, "len", p] =>
+    let roots := if side = "T" then copy else orig
+    match parsePath p with
+    | some path =>
+      match resolve H roots path with
+      | some (.array a) => match lookup H a with
+        | some (.array es) => some (H, shown ++ [toString es.length])
+        | _ => none
+      | _ => none
+    | none => none
+  | side :: "pushv" :: p :: rest =>
+    let roots := if side = "T" then copy else orig
+    match parsePath p, parseVal 200 (" ".intercalate rest).toList with
+    | some path, some (sv, _) =>
+      match resolve H roots path with
+      | some (.array a) =>
+        match buildL (if side = "T" then 2 else 1) sv none { H := H, labs := [] } with
+        | some (v, st) => match lookup st.H a with
+          | some (.array es) => some (putObj st.H a (.array (es ++ [v])), shown)
+          | _ => none
+        | none => none
       | _ => none
     | _, _ => none
   | [side, "show", p] =>
